@@ -133,6 +133,28 @@ func genC20(o *hx.Out, tier string) {
 	r := hx.NewRand(20)
 	d := shipped("minimal")
 	drw := defineDialect(o, "minimal", d)
+	// entries of one message type whose (zero-truncated) payloads get shorter and longer again, read
+	// through one reader with the dialect: an entry must not keep anything of the entry before it
+	{
+		nrep := 4
+		if tier == "thorough" {
+			nrep = 40
+		}
+		for rep := 0; rep < nrep; rep++ {
+			bw := &budgetWriter{budget: 1 << 30}
+			w := &tlog.Writer{ByteWriter: bw, DialectRW: drw}
+			w.Initialize() //nolint:errcheck
+			proto := d.Messages[rep%len(d.Messages)]
+			k := 0
+			for _, mode := range []int{1, 0, 2, 1, 2, 0, 1} {
+				fr := validFrame(r, drw, hx.RandMessage(r, proto, mode), true, nil)
+				if w.Write(&tlog.Entry{Time: time.UnixMicro(1700000000000000 + int64(k)), Frame: fr}) == nil {
+					k++
+				}
+			}
+			o.Add("same message type, payload lengths varying", tlogRead(bw.data, drw, k+2), "tlogr", "minimal", strconv.Itoa(k+2), hx.Hex(bw.data))
+		}
+	}
 	nseq := 14
 	if tier == "thorough" {
 		nseq = 150
